@@ -260,3 +260,26 @@ PROPS["C12"] = {
 
 from props_C19 import ENTRY as _C19
 PROPS["C19"] = _C19
+
+def _solver_nontrivial(line, verdict):
+    return any(k in verdict for k in ("log-accepted", "solution-covered", "inner-certified", "unknown-small", "status-", "default-solver"))
+
+_SOLVER_WL = lambda tier, seed: [{"harness": "h_solver", "tag": "solver", "args": ["c05", seed, 60 if tier == "quick" else 1500]}]
+
+PROPS["C05"] = {
+    "modules": ["IbexProofs.Props.C05"],
+    "harnesses": ["h_solver"],
+    "workloads": _SOLVER_WL,
+    "nontrivial": _solver_nontrivial,
+    "rule": "random systems with a planted solution (1-3 variables; square, under-constrained, inequality-only, mixed), solved by a real Solver assembled from CtcHC4 / HC4+ACID (+CtcNewton), "
+            "RoundRobin / LargestFirst / SmearSumRelative, CellStack / CellList, eps_x_min in {1e-3,1/32,1/8} (uniform or per variable), eps_x_max, cell limits 1..60 or none, with logging wrappers "
+            "around the contractor and the buffer; the whole log (pushes, tops, contractions, pops, flushes) is replayed by the Lean cover checker against the final paving; "
+            "the planted solution and 12 sampled points are decided feasible exactly and must lie in a box of the paving; DefaultSolver must return a status (no abort without LP library); "
+            "non-trivial = accepted log / exactly feasible covered point / certified box",
+    "assumptions": ["leaf contract: each logged contraction keeps the solutions (C04); reported existence boxes contain a solution for each parameter value (C06/C09, Brouwer)",
+                    "time limits are not exercised deterministically (cell limits are)"],
+    "trusted": ["logging wrappers of the harness (LogCtc, LogBuffer)", "expr_io.h dumper"],
+    "technique": "Lean 4 proof (cover certificate: an accepted log implies every solution of the initial box is in the paving, given sound leaf contractions; uniqueness certificate by regular interval Jacobian) + replay of real solver logs + exact planted-solution oracle",
+    "level_text": "The real search is logged through wrapper objects and replayed by Cover.check: every cell leaves the buffer emptied by logged contractions, split into two logged children covering it (split2Ok), covered by a box of the final paving, or - when replaced/discarded in favour of a Newton existence box - justified by the uniqueness certificate Newton.replaceCert (interval Jacobian w.r.t. the solution's variables regular on the hull, parameters of the cell inside those of the solution); cells left in the buffer at an interruption must be pending boxes. Theorems: see Props/C05 (acceptance rules; cover soundness).",
+    "level_note": "Trusted: Lean kernel + Mathlib; wrappers/dumper/driver; sampled systems and configurations. Known finding: Newton replacement without unicity cover (reported when no uniqueness certificate exists). Fixed: DefaultSolver abort without LP library (02c07dae).",
+}
